@@ -28,6 +28,10 @@ CLAIMED = {
     text="For every generated regex (enumerated small surface regexes + random larger ones, text and binary form) the machine the real compiler builds for `parser { /re/; }` is certified against the derivative automaton of the desugared expression by Regex.ReCheck.re_dfa_check, whose soundness theorems (c07_language, c07_run, c07_mismatch_is_first_dead_byte, c07_first_dead_byte_is_reported, c07_end_of_input_not_matched) hold for ALL byte strings; deriv/nullable/void/desugar correctness are proved once. A failed certificate gives a shortest distinguishing string, confirmed on the gcc-built parser.",
     note="Regex quantifier sampled/enumerated up to a size bound; strings covered by theorem. Trusted: Regex/Surface.v's reading of the dialect (lang), exporter, Machine/Sem.v; extraction for volume with a sample certified in Coq. Two genuine defects are listed as known findings (complementary inverted classes; empty byte class leaves a dead state).",
     ref="5 C07"),
+ "C12": dict(cat="translation_validation", tech="verified bisimulation certificates between option sets + differential runs of gcc-built binaries",
+    text="(1) For each program the machines compiled under the reference options and under sampled representation-option sets (string storage modes, u8 strings, hook placement, user pointer, packed enums, guards, pointer mode, zero-length support, unsafe indexing, range-collapse thresholds) must carry a strict bisimulation certificate (Bisim.dfa_equiv_cert: equal behaviour on all inputs under every data semantics). (2) The gcc-built binaries of the same program under those option sets are run on the same chunked inputs (incl. bytes adjacent to range ends) and must produce identical result codes, output contents/lengths/terminators and hook calls with snapshots.",
+    note="Relational property: the C-level part is differential by nature (sampled inputs, programs, option sets). Trusted: gcc, exporter, driver generator. Allocation failure is out of scope.",
+    ref="5 C12"),
  "C15": dict(cat="proof", tech="Coq proof over translator-regenerated model (pylite2coq) + CPython correspondence",
     text="Universal theorems (all strings, all digit strings, all 256 bytes) about the CURRENT bodies of _convert_string, _convert_char_const, _convert_int, _create_casei_from and _escape_string, which a fail-closed translator regenerates from /repo/nmfu.py into Gallina on every run; the translated reading is compared with CPython on ~2 700 enumerated inputs per run. A broken proof triggers a search (spec evaluated against the regenerated functions inside Coq, then Python/gcc replay) for a concrete literal.",
     note="Trusted: Coq kernel (vm_compute), translator/pylite2coq.py, Base/PyLite.v's reading of Python, Lit/LitSpec.v (spelling relation, C string-literal lexer). _convert_binary_string is tied by correspondence only; lark tokenisation and gcc are modelled, not verified.",
